@@ -223,3 +223,14 @@ def cases(depth, expr_depth, part=0, parts=1):
             yield f'global/init/{cn}', HELPERS + f'int gg = {text};\nempty @is_you() {{ }}\n', ok2, why2
         yield 'global/array_init_call', HELPERS + 'int[] ga = [ord(1), 2];\nempty @is_you() { }\n', False, 'globals are initialised without calls'
         yield 'global/array_length_call', HELPERS + 'int gz[ord(3)];\nempty @is_you() { }\n', False, 'globals are initialised without calls'
+        # ... but they may mention other (constant) globals anywhere an expression can stand: that is not a call
+        pre = HELPERS + "const int GN = 3;\nconst byte GF = 'a';\nconst bool GT = true;\n"
+        for tag, decl in (('initialiser', 'int total = GN * 2;'), ('array_length', 'int squares[GN];'), ('array_length_expr', 'bool flags[GN * 8 + 1];'),
+                          ('array_literal_item', 'byte[] letters = [GF, GF + 1, GF + 2];'), ('const_from_const', 'const int GM = GN + GN;'),
+                          ('cast', 'byte small = (GN + 1) is byte;'), ('index', 'int pick = [10, 20, 30, 40][GN];'), ('logic', 'bool both = GT and GN > 2;'),
+                          ('parenthesised', 'int par = (GN);'), ('unary', 'int neg = -GN;'), ('string_index', 'byte ch = "hello"[GN];'),
+                          ('nested_literal_length', 'int cnt = [GN, GN, GN].length;')):
+            yield f'global/mentions_global/{tag}', pre + decl + '\nempty @is_you() { }\n', True, ''
+        for tag, decl in (('call_with_global_argument', 'int bad = ord(GN);'), ('call_in_length_with_global', 'int bad[ord(GN)];'),
+                          ('call_in_item_next_to_global', 'int[] bad = [GN, ord(1)];'), ('you_call', 'int bad = @you(GN);'), ('defeat_call', 'int bad = !dft(GN);')):
+            yield f'global/mentions_global/{tag}', pre + decl + '\nempty @is_you() { }\n', False, 'globals are initialised without calls'
